@@ -6,6 +6,7 @@ import (
 	"os"
 	"runtime"
 	"runtime/debug"
+	"runtime/metrics"
 	"sort"
 	"strconv"
 	"strings"
@@ -301,8 +302,13 @@ func Main(t *testing.T, c *Check) {
 				`{"property":%q,"check":%q,"tier":%q,"seed":%d,"run":%d,"ncpu":%d}`,
 				c.ID, c.Name, tier, seed, i, runtime.NumCPU())), 0o644)
 		}
-		out := c.Exec(t, NewTape(runSeed), false)
+		traceThis := os.Getenv("VERIF_TRACE_RUN") == strconv.Itoa(i)
+		out := c.Exec(t, NewTape(runSeed), traceThis)
+		if traceThis {
+			_ = os.WriteFile(os.Getenv("VERIF_TRACE_OUT"), []byte(strings.Join(out.Trace, "\n")+"\n"), 0o644)
+		}
 		res.Runs++
+		trimHeap()
 		if hashDump != nil {
 			v := ""
 			if out.Viol != nil {
@@ -388,6 +394,12 @@ func Main(t *testing.T, c *Check) {
 		}
 	}
 	res.Complete = true
+	if os.Getenv("VERIF_MEMSTATS") != "" {
+		var ms runtime.MemStats
+		runtime.ReadMemStats(&ms)
+		fmt.Fprintf(os.Stderr, "MEMSTATS sys=%dMB heapsys=%dMB heapinuse=%dMB heapidle=%dMB heapreleased=%dMB stacksys=%dMB mspan=%dMB gcsys=%dMB other=%dMB numgc=%d goroutines=%d\n",
+			ms.Sys>>20, ms.HeapSys>>20, ms.HeapInuse>>20, ms.HeapIdle>>20, ms.HeapReleased>>20, ms.StackSys>>20, ms.MSpanSys>>20, ms.GCSys>>20, ms.OtherSys>>20, ms.NumGC, runtime.NumGoroutine())
+	}
 	res.WallSeconds = time.Since(start).Seconds()
 	res.SimSeconds = simTotal.Seconds()
 	for h := range hashes {
@@ -442,6 +454,18 @@ func (c *Check) replay(t *testing.T, path string) {
 		os.Exit(1)
 	default:
 		fmt.Printf("REPLAY-NOT-REPRODUCED property=%s\n", c.ID)
+	}
+}
+
+var heapSample = []metrics.Sample{{Name: "/memory/classes/heap/free:bytes"}, {Name: "/memory/classes/heap/unused:bytes"}}
+
+// trimHeap runs between runs (outside any bubble): memory the collector has freed but not
+// yet given back to the operating system is returned once it exceeds 256 MiB, so that 16
+// shards of a check with large transient states stay far below the machine's memory.
+func trimHeap() {
+	metrics.Read(heapSample)
+	if heapSample[0].Value.Uint64()+heapSample[1].Value.Uint64() > 256<<20 {
+		debug.FreeOSMemory()
 	}
 }
 
